@@ -33,8 +33,11 @@ fn lt_major_only_tuples(ast: &RangeAst) -> Vec<(u64, u64, u64)> {
     let mut out = vec![];
     for (p, op) in ast.all_partials() {
         if op == Some(Op::Lt) {
-            if let (Some(a), None, _, _) = npm::norm(p) {
-                out.push((a, 0, 0));
+            match npm::norm(p) {
+                (Some(a), None, _, _) => out.push((a, 0, 0)),
+                // `<x` becomes `<0.0.0`: the same missing `-0`
+                (None, _, _, _) => out.push((0, 0, 0)),
+                _ => {}
             }
         }
     }
@@ -47,6 +50,9 @@ pub struct Outcome {
 
 /// Compare the crate with the npm model on one AST.  `strict_known` = do not tolerate open findings.
 pub fn check_ast(ast: &RangeAst, extra: &[MVersion], st: &mut Stats, strict_known: bool) -> Result<Outcome, Failure> {
+    if !ast.well_formed() {
+        return Ok(Outcome { compared: 0 });
+    }
     // constructs of open findings are excluded by construction; a case that reaches this point through
     // the minimiser, a fuzz input or a replay file and lies in such a class is counted, not compared
     if !strict_known {
@@ -351,7 +357,7 @@ pub fn run(cfg: &RunCfg) -> PropRun {
         move |shard, nsh| (0..tr.len()).filter(move |i| i % nsh == shard),
         |i, st| {
             let (op, p) = &tr[*i];
-            let in_class = *op != Op::Bare && p.wildcard_misplaced();
+            let in_class = op_wildcard_misplaced(*op, p);
             if in_class && wild_open {
                 excluded.fetch_add(1, std::sync::atomic::Ordering::Relaxed);
                 if token_vs_grid(*op, p, gr, cgr, &mut Stats::default()).is_err() {
